@@ -15,73 +15,124 @@ def split_impl(line):
 
 def split_model(line):
     a, _, rest = line.partition(" || ")
-    spec, _, effs = rest.partition(" ;; ")
+    spec, _, tail = rest.partition(" ;; ")
+    effs, _, unk = tail.partition(" ;; unk=")
     return a.split(" / "), spec.replace("spec: ", "", 1).strip(), effs.strip()
 
 
-SPEC_MAX_LEN = 1 << 20      # BEP 3 framing limit enforced by read_message (spec constants, NOT from Params)
-SPEC_EXT_LIMIT = 1 << 15
-SPEC_EXT_TYPES = 3
+def model_unknown_keys(line):
+    unk = line.rpartition(" ;; unk=")[2].strip() if " ;; unk=" in line else "-"
+    return [] if unk in ("-", "") else unk.split(",")
 
 
-def spec_limit_walk(case):
-    """Independent of the Coq model and of the extracted constants: walk the stream with the fixed limits and
-    return True if a length / extension limit MUST have closed the connection before any other reason to close
-    or any incomplete message is met; None when the walk cannot tell."""
+def with_policy(case, table):
+    """case line + the probed close decisions for the keys this case consults"""
+    if not table:
+        return case
+    return case + " pol=" + ",".join("%s=%d" % (k, v) for k, v in sorted(table.items()))
+
+
+def probe_policy(model, impl, cases):
+    """The property does not fix WHICH malformed headers close a connection. The decoder is parametric in that policy
+    (coq/C03/Model.v `policy`); here the implementation's policy is probed for exactly the headers the decoder consults
+    on these cases (fixpoint: a changed decision can make the decoder look at further headers). Returns
+    (model output lines, per-case tables, stats)."""
+    exact = [i for i, c in enumerate(cases) if not c.startswith("mode=")]
+    tables = {i: {} for i in exact}
+    known = {}      # (role, key) -> 0/1
+    mo = ltv.run_sharded(model, cases)
+    todo = exact
+    rounds = 0
+    nprobes = 0
+    while todo and rounds < 8:
+        rounds += 1
+        need = {}
+        for i in todo:
+            role = cases[i].split()[0].split("=", 1)[1]
+            for k in model_unknown_keys(mo[i] if i < len(mo) else ""):
+                if (role, k) not in known:
+                    need.setdefault(role, set()).add(k)
+        lines = []
+        for role, ks in sorted(need.items()):
+            ks = sorted(ks)
+            npc = 1 if role == "meta" else 8
+            for j in range(0, len(ks), 12):
+                lines.append("mode=probe role=%s np=%d keys=%s" % (role, npc, ",".join(ks[j:j + 12])))
+        if lines:
+            po = ltv.run_sharded(impl, lines, timeout=900)
+            for ln, out in zip(lines, po):
+                role = ln.split()[1].split("=", 1)[1]
+                if not out.startswith("PROBE"):
+                    continue
+                for tok in out.split()[1:]:
+                    k, _, v = tok.partition("=")
+                    if v in ("0", "1"):
+                        known[(role, k)] = int(v)
+                        nprobes += 1
+        changed = []
+        for i in todo:
+            role = cases[i].split()[0].split("=", 1)[1]
+            new = False
+            for k in model_unknown_keys(mo[i] if i < len(mo) else ""):
+                if (role, k) in known and k not in tables[i]:
+                    tables[i][k] = known[(role, k)]
+                    new = True
+                elif (role, k) not in known and k not in tables[i]:
+                    tables[i][k] = 0       # probe failed: keep the default, the correspondence will tell
+                    new = True
+            if new:
+                changed.append(i)
+        if not changed:
+            break
+        sub = [with_policy(cases[i], tables[i]) for i in changed]
+        so = ltv.run_sharded(model, sub)
+        for i, o in zip(changed, so):
+            mo[i] = o
+        todo = changed
+    closes = sorted("%s/%s" % rk for rk, v in known.items() if v == 1)
+    return mo, tables, {"rounds": rounds, "headers_probed": nprobes, "closing_headers": len(closes), "closing_sample": closes[:12]}
+
+
+
+def _waiting_ok(case):
+    """per delivery: True if the event list does not end with a write-ready event although replies are generated
+    (xr= cases): a complete extension message may then legitimately wait for the held writer"""
     kv = dict(t.split("=", 1) for t in case.split() if "=" in t)
-    if kv.get("ho", "-") != "-":
-        return None
-    s = bytes.fromhex(kv["stream"]) if kv.get("stream", "-") != "-" else b""
-    role, np_ = kv["role"], int(kv["np"])
-    p = 0
-    have = set()
-    while True:
-        if len(s) - p < 4:
-            return None
-        ln = int.from_bytes(s[p:p + 4], "big")
-        if ln == 0:
-            p += 4
-            continue
-        if len(s) - p < 5:
-            return None
-        if ln > SPEC_MAX_LEN:
-            return True
-        mid = s[p + 4]
-        if mid in (0, 1, 2, 3):
-            p += 5
-        elif mid == 4:
-            if len(s) - p < 9 or int.from_bytes(s[p + 5:p + 9], "big") >= np_:
-                return None
-            if kv["bits"] != "-":
-                return None
-            have.add(int.from_bytes(s[p + 5:p + 9], "big"))
-            if len(have) >= np_:
-                return None        # completing the bitfield may close the connection: stop
-            p += 9
-        elif mid in (6, 8):
-            if len(s) - p < 17:
-                return None
-            p += 17
-        elif mid == 9:
-            if len(s) - p < 7:
-                return None
-            p += 7
-        elif mid == 20:
-            if len(s) - p < 6:
-                return None
-            if s[p + 5] >= SPEC_EXT_TYPES or ln < 2 or ln - 2 > SPEC_EXT_LIMIT:
-                return True
-            return None    # what the payload does is handler business
-        else:
-            return None
+    segs = kv.get("segs", "").split("/")
+    if kv.get("xr", "-") == "-":
+        return [False] * len(segs)
+    return [not s.rstrip(",").endswith("w") for s in segs]
+
+
+def _unparsed_complete(d):
+    """Clause 'no complete message left undispatched while the connection is open and idle', decided on the
+    implementation's own digest for the messages whose completeness no framing policy can dispute: a keep-alive
+    (length prefix 0) or CHOKE/UNCHOKE/INTERESTED/NOT_INTERESTED with length prefix 1 at the head of the unread bytes."""
+    if not d.startswith("closed=0") or " st=IDLE " not in d + " ":
+        return False
+    pend = ""
+    for t in d.split():
+        if t.startswith("pend="):
+            pend = t[5:]
+    if pend in ("", "-"):
+        return False
+    return pend.startswith("00000000") or (len(pend) >= 10 and pend[:8] == "00000001" and pend[8:10] in ("00", "01", "02", "03"))
+
+
+def strip_pend(d):
+    return " ".join(t for t in d.split(" ") if not t.startswith("pend="))
 
 
 def oracle(case, mline, iline):
-    """Property C03 evaluated on ONE implementation output line (the model line supplies the reference
-    decode of the whole stream). Returns list of (klass, text)."""
+    """Property C03 evaluated on ONE implementation output line, WITHOUT the model: (a) no crash / fatal / hang,
+    (b) other peer still served, (c) the implementation's own runs of the same stream under different segmentations
+    agree (state after quiescence, responses), (d) no indisputably complete message left undispatched while open.
+    Which malformed messages close the connection is NOT part of the property. Returns list of (klass, text)."""
     bad = []
     if iline.startswith("CRASH"):
         return [("crash", "sanitizer report / abort / uncaught exception while a peer was sending bytes: " + iline[:300])]
+    if iline.startswith("HANG"):
+        return [("hang", "the implementation did not come back within the per-case watchdog: " + iline[:200])]
     if iline.startswith("ERR:internal"):
         return [("internal-error", "the fatal internal_error condition was raised by peer input: " + iline[:300])]
     if iline.startswith("ERR:") or iline.startswith("BADCASE") or iline == "MISSING":
@@ -91,38 +142,28 @@ def oracle(case, mline, iline):
             bad.append(("other-connection-affected", "the healthy peer was no longer served after the hostile one: " + iline[:200]))
         return bad
     d1, d2, healthy = split_impl(iline)
-    _, spec, _ = split_model(mline)
     if healthy != "healthy=OK":
         bad.append(("other-connection-affected", "the healthy peer of the same torrent was no longer served: " + healthy))
-    if spec_limit_walk(case) is True and any(d != "closed=1" for d in d1):
-        bad.append(("limit-not-enforced", "a length prefix above 2^20 / an extension message above 2^15 bytes or of unknown type "
-                                          "did not close the connection"))
-    wrong = [d for d in d1 if d != spec]
-    d1cmp = d1
-    if " xr=" in case and " xr=- " not in case:
-        # a complete extension message waiting for the previous reply to be written (model digest st=EXT:0, equal to
-        # the implementation's) is not a stall: the write side is held by the harness at that point. Such deliveries
-        # (event lists that do not end with a write-ready event) are compared with the model only.
-        md1 = mline.partition(" || ")[0].split(" / ")
-        waiting = [k < len(md1) and md1[k] == d and "st=EXT:0" in d for k, d in enumerate(d1)]
-        wrong = [d for k, d in enumerate(d1) if d != spec and not waiting[k]]
-        d1cmp = [d for k, d in enumerate(d1) if not waiting[k]]
-    if wrong and spec not in ("FAULT", "OUTOFFUEL", ""):
-        kl = "handover-unparsed" if " ho=-" not in case else (
-            "meta-bitfield-stall" if case.startswith("role=meta") and any("st=SKIP" in d for d in wrong) else "stream-effect-differs-from-decode")
-        bad.append((kl, "after quiescence the connection state is not the state the delivered byte stream denotes "
-                        "(complete messages left undispatched): got '%s' want '%s'" % (wrong[0], spec)))
+    waiting = _waiting_ok(case)
+    waiting = (waiting + [False] * len(d1))[:len(d1)]
+    stalled = [d for d in d1 if _unparsed_complete(d)]
+    if stalled:
+        kl = "handover-unparsed" if " ho=-" not in case else "complete-message-undispatched"
+        bad.append((kl, "after quiescence the connection is open and idle with a complete message undispatched at the head of its "
+                        "read buffer: '%s'" % stalled[0]))
+    d1cmp = [strip_pend(d) for k, d in enumerate(d1) if not waiting[k]]
     if len(set(d1cmp)) > 1:
-        bad.append(("segmentation-dependent", "state after quiescence differs between segmentations of the same stream"))
-    d2cmp = d2
-    if " xr=" in case and " xr=- " not in case:
-        # these deliveries differ in WHERE the write-ready events fall, not only in the segmentation: the relative order
-        # of independent write-side messages (CHOKE/UNCHOKE vs an extension reply) legitimately follows it. Compared as
-        # multisets, and only for deliveries that end with a write-ready event.
-        def norm(x):
+        kl = "meta-bitfield-stall" if case.startswith("role=meta") and any("st=SKIP" in d for d in d1cmp) else "segmentation-dependent"
+        bad.append((kl, "state after quiescence differs between segmentations of the same stream: " + " <> ".join(sorted(set(d1cmp)))[:300]))
+
+    def norm(x):
+        if " xr=" in case and " xr=- " not in case:
+            # deliveries that differ in WHERE the write-ready events fall: the relative order of independent write-side
+            # messages (CHOKE/UNCHOKE vs an extension reply) legitimately follows it: compared as multisets
             a, _, r = x.partition(" resp=")
             return a + " resp=" + ",".join(sorted(r.split(",")))
-        d2cmp = [norm(x) for k, x in enumerate(d2) if not (k < len(waiting) and waiting[k])]
+        return x
+    d2cmp = [norm(x) for k, x in enumerate(d2) if not (k < len(waiting) and waiting[k])]
     if len(set(d2cmp)) > 1:
         bad.append(("segmentation-dependent-responses", "responses / liveness after releasing the writer differ between segmentations"))
     return bad
@@ -145,7 +186,8 @@ def run(rep, tier, seed, replay):
         stats = {"replay": 1}
     else:
         cases, stats = G.gen(seed, tier)
-    mo = ltv.run_sharded(model, cases)
+    mo, ptables, pstats = probe_policy(model, impl, cases)
+    stats["policy_probe"] = pstats
     io = ltv.run_sharded(impl, cases, timeout=900)
     nontrivial = set()
     mism = 0
@@ -155,6 +197,7 @@ def run(rep, tier, seed, replay):
         m = mo[i] if i < len(mo) else "MISSING"
         o = io[i] if i < len(io) else "MISSING"
         free = case.startswith("mode=free")
+        case = with_policy(case, ptables.get(i, {})) if " pol=" not in case else case
         if len(samples) < 5 and i % 97 == 5:
             samples.append({"case": case[:300], "impl": o[:300]})
         viol = oracle(case, m, o)
@@ -165,7 +208,7 @@ def run(rep, tier, seed, replay):
                 rep.violation(text, case=case, model=m, impl=o, theorem="property oracle C03 (free mode: safety)", klass=kl)
             continue
         md1 = m.partition(" || ")[0]
-        od1 = o.partition(" || ")[0]
+        od1 = " / ".join(strip_pend(d) for d in o.partition(" || ")[0].split(" / "))
         nseg += len(od1.split(" / "))
         # non-trivial: the stream got past the first message without being closed in at least one delivery, or was closed by a
         # handler-level decision (not by the first length/id check)
@@ -176,10 +219,12 @@ def run(rep, tier, seed, replay):
             mism += 1
             if viol:
                 kl, text = viol[0]
-                rep.violation("model and implementation differ AND the property fails on the implementation: " + text,
+                rep.violation("the property fails on the implementation (and model and implementation differ): " + text,
                               case=case, model=m, impl=o, theorem="correspondence C03 (state digest per segmentation)", klass=kl)
             else:
-                rep.violation("correspondence broken: model and implementation digests differ (property oracle holds on this input)",
+                rep.violation("correspondence broken: model and implementation digests differ; every clause of the property holds on the "
+                              "implementation for this input (no crash/fatal/hang, other peer served, its own runs under the different "
+                              "segmentations agree, no complete message left undispatched)",
                               case=case, model=m, impl=o, theorem="correspondence C03 (state digest per segmentation)", found_input=False)
         else:
             for kl, text in viol:
